@@ -2,6 +2,7 @@
 Every run: (1) theorems of the property file, (2) correspondence = the pop trace, status, goal derivations and scores of the
 real parse_sentence (libdrv.so built from the repository's parsing.h, hook on) are accepted by the Coq model
 (`run_ok`, vm_compute), (3) an independent oracle of the property on the implementation's output."""
+import os
 import functools, math
 import numpy
 import gen, astar as A
@@ -359,6 +360,7 @@ def rt_search_float(p, pen):
 
 def run_family(ctx, focus, pfile):
     rng = ctx.rng
+    A.LAST_INPUT = os.path.join(ctx.work, 'last_input.json')
     ctx.build([pfile + '.vo'])
     ctx.theorems(pfile)
     quick = ctx.quick
